@@ -133,5 +133,7 @@ def build(tier, seed):
     thorough = tier == 'thorough'
     obs = []
     for mname in MODELS:
+        if MODELS[mname].get('typed') or MODELS[mname].get('absent'):
+            continue
         obs += schedule_obs(mname, 4 if thorough else 3, 900 if thorough else 300)
     return obs
